@@ -88,9 +88,9 @@ static CO_ERR COTEmcyHistRead(struct CO_OBJ_T *obj, struct CO_NODE_T *node, void
 
             /* get object entry and stored read value */
             subObj = CODictFind(cod, CO_DEV(COT_OBJECT, map));
-            result = uint32->Read(subObj, node, buffer, COT_ENTRY_SIZE);
+            result = uint32->Read(subObj, node, buffer, size);
         } else {
-            if (sub < emcy->Hist.Max) {
+            if ((sub < emcy->Hist.Max) && (size == COT_ENTRY_SIZE)) {
                 *((uint32_t *)buffer) = (uint32_t)0;
             }
         }
@@ -104,10 +104,8 @@ static CO_ERR COTEmcyHistWrite(struct CO_OBJ_T *obj, struct CO_NODE_T *node, voi
     CO_EMCY *emcy;
     uint8_t  value;
 
-    CO_UNUSED(size);
-
     /* writing is allowed to subindex 0 only */
-    if (CO_GET_SUB(obj->Key) == 0) {
+    if ((CO_GET_SUB(obj->Key) == 0) && (size == 1u)) {
         emcy = &node->Emcy;
 
         /* only value 0 is allowed to reset history */
